@@ -195,7 +195,8 @@ _CAP_RULE = ("capture suite: well-formed single-threaded programs (as C01) drive
              "filters from {none, level threshold, name predicate, target-prefix predicate}, optional global LevelFilter layer, "
              "pass-through layers in every position, 1..3 capture layers, stale follows-from targets, one case in sixty a chain of "
              "129..170 nested spans or a 9..16-level \"caterpillar\" (every level a descended span plus later siblings), unbalanced exits "
-             "(Dispatch::exit on a span that is not entered), events whose explicit parent is the id of a dropped handle, one case in three reads the storages in mid-run (`probe`: descendants of a span walked and counted "
+             "(Dispatch::exit on a span that is not entered), events whose explicit parent is the id of a dropped handle, one case in nine records values whose Debug impl emits an event while "
+             "it is rendered (run under a 10 s watchdog, oracle-only), one case in three reads the storages in mid-run (`probe`: descendants of a span walked and counted "
              "while capturing goes on); the whole storage is dumped "
              "through the public query API and every C17 law is cross-checked on it, including equality / order of handles at every pair of "
              "positions within a storage and against a second storage (another layer's, or a second run's); for C16 one case in three "
